@@ -381,10 +381,14 @@ class RandomWalk(Processor):
         ----------
         meta_molecule:  :class:`polyply.src.meta_molecule.MetaMolecule`
         """
-        if not self.start_node:
-            first_node = _find_starting_node(meta_molecule)
-        else:
+        if self.start_node:
             first_node = self.start_node
+        # a root that has been chosen before (e.g. the first residue of a
+        # persistence length restraint) is the root of the search tree
+        elif meta_molecule.root is not None:
+            first_node = meta_molecule.root
+        else:
+            first_node = _find_starting_node(meta_molecule)
 
         meta_molecule.root = first_node
 
